@@ -7,7 +7,7 @@ def group(K, tiers, insts):
 SPEC = dict(
     property='C13',
     groups=[
-        group(3, ('quick', 'thorough'), ['sched_int', 'sched_void', 'sched_uptr', 'sched_int_reenter', 'observers']),
+        group(3, ('quick', 'thorough'), ['sched_int', 'sched_void', 'sched_uptr', 'sched_int_reenter', 'observers', 'reenter_void_then', 'reenter_int_refinish', 'reenter_uptr_refinish', 'reenter_observe']),
         group(4, ('thorough',), ['sched_int', 'sched_void', 'sched_uptr', 'sched_int_reenter']),
     ],
     bounds=['K<=4 (quick) / K<=6 (thorough) nondeterministic operations from {copy task, then, finish, destroy context, drop task copy, drop/copy promise}', 'result types void, int, std::unique_ptr<int>', 'at most 2 task copies and 2 promise copies'],
